@@ -140,12 +140,30 @@ def witness_run(text, ppopts=None, **popts):
     return d, out
 
 
+def failing_witness_source(text, popts, ppopts=None):
+    """the witness text itself makes the real public API raise while the harness is being generated: the obligation becomes that
+    very call (CrossHair reports the exception, the replay reproduces it in plain CPython)"""
+    body = ("P = PIPEC if POPTS.get('include_comments') else (PIPE_NOINC if POPTS.get('expand_includes') is False else PIPE)\n"
+            "T = MapfileToDict(include_position=bool(POPTS.get('include_position')), include_comments=bool(POPTS.get('include_comments')))\n"
+            "d = T.transform(P.parse(TEXT))\n"
+            "text = '\\n'.join(PP._format(d))\n"
+            "T.transform(P.parse(text))\n"
+            "return z == z\n")
+    defs = f"\nTEXT = {text!r}\nPOPTS = {popts!r}\nPPOPTS = {dict(ppopts or {})!r}\n"
+    return PRELUDE + defs + harness("h", [("z", "int")], "", body)
+
+
 def rt_source(text: str, holes: list[Hole], idem=True, popts=None, ppopts=None) -> tuple[str, list, str]:
     """C01-RT / C04-FIX harness for one skeleton: returns (module source, params, pre)"""
     popts = popts or {}
     ppopts = dict(ppopts or {})
     ppopts.setdefault("newlinechar", "\n")
-    d, printed = witness_run(text, ppopts, **popts)
+    try:
+        d, printed = witness_run(text, ppopts, **popts)
+        import mappyfile as _m
+        _m.loads(printed, **popts)
+    except Exception:
+        return failing_witness_source(text, popts, ppopts), [("z", "int")], ""
     lines = printed.split(ppopts["newlinechar"])
     Q = ppopts.get("quote", '"')
     params, pre, build = [], [], []
